@@ -82,6 +82,13 @@ func GenC16(seed uint64) *Plan {
 						ev.Inputs[k].Column = fmt.Sprintf("i%d_%s", i, ev.Inputs[k].Column)
 					}
 				}
+				// (components too: two sharers must not claim one column name
+				// with different types)
+				for c := range ev.Inputs[k].Components {
+					if cc := &ev.Inputs[k].Components[c]; cc.Column != "" && shared {
+						cc.Column = fmt.Sprintf("i%d_%s", i, cc.Column)
+					}
+				}
 			}
 			d.Event = ev
 			for _, in := range d.SelectedInputs() {
